@@ -277,7 +277,13 @@ fn build_control_block_request<E: FieldElement<BaseField = Felt>>(
     let header =
         alphas[0] + alphas[1].mul_base(Felt::from(transition_label)) + alphas[2].mul_base(addr_nxt);
 
-    let state = main_trace.decoder_hasher_state(row);
+    // the hash of a DYN block is computed over zeros (it is a constant); on a DYN row the hasher
+    // registers hold the hash of the dynamically invoked target, which is not what is hashed
+    let state = if op_code_felt.as_int() as u8 == DYN {
+        [ZERO; 8]
+    } else {
+        main_trace.decoder_hasher_state(row)
+    };
 
     header + build_value(&alphas[8..16], &state) + alphas[5].mul_base(op_code_felt)
 }
